@@ -276,6 +276,22 @@ pub async fn run() {
                             None => return,
                         }
                     };
+                    // a send is an operation on the link: it learns of the peer's detach, reports it, and
+                    // the answer to the peer is on the wire by the time it has returned (on_detach() only
+                    // tells; the answer then comes with the operation after it)
+                    if !(learn_by_on_detach && script != Script::SessionEndedByPeer) && matches!(script, Script::IdleLinkClosedByPeer | Script::IdleLinkDetachedByPeer) {
+                        world::quiesce_pair(&net).await;
+                        mon.borrow_mut().sync();
+                        let answered = mon.borrow().ends[0].sessions.iter().flat_map(|s| s.links.iter()).any(|l| l.name == "under-test" && l.detached);
+                        if !answered {
+                            sim::violation(
+                                "peer-detach-not-answered",
+                                format!("the peer detached the link (with error: {}); the application's next operation on it, a send, returned {} and no detach has been written in answer", with_error, r1),
+                            );
+                            return;
+                        }
+                        sim::probe("peer-detach-answered-by-the-failing-send");
+                    }
                     let use_detach = (script == Script::IdleLinkDetachedByPeer && !close_after_peer_detach) || (script == Script::IdleLinkClosedByPeer && answer_with_detach);
                     let r2 = if use_detach {
                         match sim::op("detach", s.detach()).await {
@@ -412,4 +428,132 @@ pub async fn run() {
     }
     let _ = sim::op("peer script", script_done.take()).await;
     drop(kept);
+}
+
+// ---------------------------------------------------------------------------------------
+// After its own end a session writes nothing on the channel, whatever still arrives there: the
+// application ends the session (with or without an error) while links are attached, and the peer,
+// before it answers with its end, sends frames that an open session would answer - a link flow
+// and a session flow asking for an echo, a transfer to a receiving link, an attach.
+
+pub async fn run_frames_after_local_end() {
+    let with_error = choice(2) == 1;
+    let with_receiver = choice(2) == 1;
+    let ccfg = EndpointCfg::default_cfg();
+    let (nab, nba, nd) = world::draw_net(false);
+    let stimuli: Vec<u32> = (0..1 + choice(3)).map(|_| choice(4)).collect();
+    sim::set_config(format!("variant=frames-after-local-end end-with-error={} receiver-link={} stimuli={:?} {}", with_error, with_receiver, stimuli, nd));
+    sim::mark_nontrivial();
+    sim::set_panic_is_violation(true);
+    let models = Models { sess: true, link: true, ..Models::none() };
+    let cvp = match peer::client_vs_peer(&ccfg, peer::open("peer", Some(65536), Some(255), None), nab, nba, models).await {
+        Some(x) => x,
+        None => return,
+    };
+    let peer::ClientVsPeer { mut client, mut peer, net, mon, .. } = cvp;
+    let bf = sim::in_group(1, Session::begin(&mut client));
+    let pb = async {
+        let b = peer.expect(wire::BEGIN).await?;
+        peer.send(0, &peer::begin(Some(b.channel), 0, 5000, 5000)).await;
+        Some(())
+    };
+    let mut session = match sim::op("begin", world::join2(bf, pb)).await {
+        Some((Ok(s), Some(()))) => s,
+        _ => return,
+    };
+    let af = sim::in_group(1, Sender::attach(&mut session, "snd", "q"));
+    let pa = async {
+        peer.expect(wire::ATTACH).await?;
+        peer.send(0, &peer::attach(&AttachArgs::receiver("snd", 7))).await;
+        let f = FlowArgs { next_incoming_id: Some(0), incoming_window: 5000, next_outgoing_id: 0, outgoing_window: 5000, handle: Some(7), delivery_count: Some(0), link_credit: Some(100), ..Default::default() };
+        peer.send(0, &peer::flow(&f)).await;
+        Some(())
+    };
+    let sender = match sim::op("attach sender", world::join2(af, pa)).await {
+        Some((Ok(s), Some(()))) => s,
+        _ => return,
+    };
+    let mut receiver = None;
+    if with_receiver {
+        let af = sim::in_group(1, Receiver::attach(&mut session, "rcv", "q"));
+        let pa = async {
+            peer.expect(wire::ATTACH).await?;
+            peer.send(0, &peer::attach(&AttachArgs::sender("rcv", 8))).await;
+            Some(())
+        };
+        receiver = match sim::op("attach receiver", world::join2(af, pa)).await {
+            Some((Ok(r), Some(()))) => Some(r),
+            _ => return,
+        };
+    }
+    let _ = peer::settle(&mut peer, &net, |_| {}).await;
+    // the application ends the session; the peer dawdles
+    let end = async {
+        if with_error {
+            let e = fe2o3_amqp::types::definitions::Error::new(fe2o3_amqp::types::definitions::AmqpError::InternalError, Some("local-session-error".to_string()), None);
+            format!("{:?}", session.end_with_error(e).await)
+        } else {
+            format!("{:?}", session.end().await)
+        }
+    };
+    let dawdle = async {
+        // wait for the endpoint's end
+        loop {
+            match peer.recv_within(60_000).await {
+                Some(Item::Frame(f)) if f.code == wire::END => break,
+                Some(_) => {}
+                None => return false,
+            }
+        }
+        sim::fault("frames-sent-after-the-endpoint-ended");
+        for k in &stimuli {
+            match k {
+                0 => {
+                    let f = FlowArgs { next_incoming_id: Some(0), incoming_window: 5000, next_outgoing_id: 0, outgoing_window: 5000, handle: Some(7), delivery_count: Some(0), link_credit: Some(50), echo: Some(true), ..Default::default() };
+                    peer.send(0, &peer::flow(&f)).await;
+                }
+                1 => {
+                    let f = FlowArgs { next_incoming_id: Some(0), incoming_window: 4000, next_outgoing_id: 0, outgoing_window: 5000, echo: Some(true), ..Default::default() };
+                    peer.send(0, &peer::flow(&f)).await;
+                }
+                2 if with_receiver => {
+                    let t = crate::peer::TransferArgs { handle: 8, delivery_id: Some(0), delivery_tag: Some(vec![1]), message_format: Some(0), settled: Some(false), ..Default::default() };
+                    peer.send_with_payload(0, &peer::transfer(&t), &msgs::encode(&msgs::gen_message(5, 40, 1))).await;
+                }
+                _ => {
+                    peer.send(0, &peer::attach(&AttachArgs::sender("late", 9))).await;
+                }
+            }
+            sim::sleep_ms(pick(&[0u64, 1, 30])).await;
+        }
+        let _ = peer.drain_for(pick(&[1u64, 50, 500])).await;
+        peer.send(0, &peer::end(None)).await;
+        true
+    };
+    let (end_r, ok) = match sim::op("end while the peer keeps sending", world::join2(end, dawdle)).await {
+        Some(x) => x,
+        None => return,
+    };
+    if !ok {
+        sim::violation("end-not-sent", "the application ended the session and no end frame reached the peer".into());
+        return;
+    }
+    let _ = peer::settle(&mut peer, &net, |_| {}).await;
+    let _ = peer.drain_for(200).await;
+    // the wire model (one end, nothing on the channel afterwards) has judged every frame by now
+    mon.borrow_mut().sync();
+    if sim::has_violation() {
+        return;
+    }
+    if !with_error && !end_r.starts_with("Ok") {
+        sim::violation("session-end-result", format!("end() against a peer that answered with a plain end returned {}", end_r));
+        return;
+    }
+    sim::probe("nothing-written-after-local-end");
+    drop(sender);
+    drop(receiver);
+    let td = async {
+        let _ = tokio::time::timeout(std::time::Duration::from_secs(20), client.close()).await;
+    };
+    let _ = world::join2(td, peer::serve_teardown(&mut peer, 10_000)).await;
 }
